@@ -46,6 +46,8 @@ impl<'a> Remote<'a> {
 
         // Load shared pointer - it should always be valid since we keep it until
         // Executor drops
+        #[cfg(compio_verif)]
+        compio_log::verif::point("exec.remote.load_shared", self.ptr.as_ptr() as u64, 0);
         let Some(shared) = (unsafe { self.header().shared.load(Ordering::Acquire).as_ref() })
         else {
             self.header().state.finish_scheduling();
@@ -57,26 +59,38 @@ impl<'a> Remote<'a> {
         // Reserve a pending slot *before* pushing so the consumer's fast-path
         // counter is always an upper bound on the queued items and its
         // `fetch_sub` can never underflow.
+        #[cfg(compio_verif)]
+        compio_log::verif::point("exec.remote.reserve", self.ptr.as_ptr() as u64, 0);
         shared.pending.fetch_add(1, Ordering::Release);
 
         let mut notified = false;
+        #[cfg(compio_verif)]
+        compio_log::verif::point("exec.remote.push", self.ptr.as_ptr() as u64, 0);
         while shared.sync.push(self.header().id).is_err() {
             if !notified && let Some(ref waker) = shared.waker {
                 waker.wake_by_ref();
                 notified = true;
             } else if self.header().state.load::<Strong>().is_cancelled() {
                 // Bailing out without pushing: release the reservation.
+                #[cfg(compio_verif)]
+                compio_log::verif::point("exec.remote.unreserve", self.ptr.as_ptr() as u64, 0);
                 shared.pending.fetch_sub(1, Ordering::Release);
                 self.header().state.finish_scheduling();
                 return;
             } else {
+                #[cfg(compio_verif)]
+                compio_log::verif::point("exec.remote.push_retry", self.ptr.as_ptr() as u64, 0);
                 crate::yield_now()
             }
         }
+        #[cfg(compio_verif)]
+        compio_log::verif::point("exec.remote.wake_driver", self.ptr.as_ptr() as u64, notified as u64);
         if !notified && let Some(ref waker) = shared.waker {
             waker.wake_by_ref();
         }
 
+        #[cfg(compio_verif)]
+        compio_log::verif::point("exec.remote.done", self.ptr.as_ptr() as u64, 0);
         self.header().state.finish_scheduling();
     }
 
@@ -128,6 +142,8 @@ impl<'a> Remote<'a> {
                 break Poll::Pending;
             }
 
+            #[cfg(compio_verif)]
+            compio_log::verif::point("exec.remote.write_waker", self.ptr.as_ptr() as u64, 0);
             self.header().waker.with_mut(|ptr| {
                 crate::panic_guard!();
 
